@@ -63,6 +63,19 @@ def context_urls() -> list[bytes]:
     return out
 
 
+HOST_SHAPES = [b"example.com", b"info", b"com", b".com", b"docs", b"museum", b"example.com.", b"a..com", b"example.invalidtld", b"localhost", b"a.b",
+               b"-.com", b"x.co", b"name.Info", b"EXAMPLE.COM", b"1.2.3", b"999.1.1.1", b"1.2.3.4", b"sub.evil-site.net", b"xn--p1ai", b"a_b.com"]
+
+
+def host_shapes() -> list[bytes]:
+    """every host shape as URL host, UNC server, e-mail domain and free text: what is reported as a domain has a label, a dot and a registered suffix"""
+    out = []
+    for h in HOST_SHAPES:
+        out += [b"http://" + h + b"/", b"see ftp://" + h + b"/x?y ", b"https://u:p@" + h + b":8080/p", b"\\\\" + h + b"\\share\\x.txt",
+                b"open \\\\" + h + b"\\c$\\a.exe now", b"mail user@" + h + b" now", b" " + h + b" ", b"<" + h + b">"]
+    return out
+
+
 def url_lattice(rng: random.Random, tier: str) -> list[bytes]:
     schemes = [b"http", b"https", b"ftp", b"HTTP", b"hTTps"]
     users = [b"", b"u@", b"u:@", b"u:p@", b":p@", b"@", b"us%65r:p%40ss@", b"a:b:c@"]
@@ -269,7 +282,7 @@ def run(prop: str, tier: str) -> int:
 
     inputs = list(drivers.repo_literals()) + list(net_soup(rng, 800 if tier == "quick" else 15000))
     inputs += list(drivers.token_soup(rng, 200 if tier == "quick" else 3000))
-    inputs += context_urls()
+    inputs += context_urls() + host_shapes()
     if prop == "C11":
         from . import helpers_stage
 
